@@ -57,7 +57,7 @@ def run(res):
     out, defs, (rc, so, se) = core.gen_and_eval("C20", "c20", HEADER, FOOTER)
     if out is None:
         res.violation("harness-abort", "the macat harness did not complete on the current tree (rc=%d)" % rc,
-                      {"stderr": se[-3000:], "correspondence": "cmd/c20 vs Model/Macat.v"}, found_input=False)
+                      {"stderr": se[-3000:], "panic": "panic:" in se, "correspondence": "cmd/c20 vs Model/Macat.v"}, found_input=("panic:" in se))
         res.coverage.update({"evaluations": 0, "distinct_nontrivial": 0, "rule": "harness aborted", "samples": []})
         return
     text = open(defs).read()
